@@ -146,6 +146,17 @@ def stepSer (st : St) (cmd : List String) (got : String) : Option (St × Verdict
     match st.bm[x]? with
     | none => some (skipV st got)
     | some _ => some (st, expect "allerr" got)
+  | ["spec", y, entry, hexS, claimed] =>
+    match bytesOfHex hexS with
+    | none => some (skipV st got)
+    | some bytes =>
+      match FormatSpec.specDecode bytes.toArray with
+      | none => some (st, some "MACHINERY: independent spec reading rejects the generator's stream")
+      | some d =>
+        if digest d.set != claimed then some (st, some ("MACHINERY: spec reading gives " ++ digest d.set))
+        else
+          let n := if entry == "unmarshal" then "-1" else toString bytes.length
+          some ({ st with bm := st.bm.insert y d.set }, expect ("ok " ++ claimed ++ " " ++ n) got)
   | "dec" :: y :: entry :: hexS :: _ =>
     match bytesOfHex hexS with
     | none => some (skipV st got)
@@ -160,7 +171,8 @@ def stepSer (st : St) (cmd : List String) (got : String) : Option (St × Verdict
         let v := r.validate
         let exp := "ok " ++ (if entry == "unmarshal" then "-1" else toString m) ++ " " ++
           (if v then "valid" else "invalid") ++ " " ++ renderRep r
-        if got != exp then some (st0, some exp)
+        if entry == "must" && !v then some (st0, expect "panic" got)   -- MustReadFrom panics to report a validation failure
+        else if got != exp then some (st0, some exp)
         else if v && !r.wf then
           some (st0, some "Validate()==nil implies well-formed (model WF fails on this accepted input)")
         else if v then some ({ st0 with bm := st0.bm.insert y r.toBSet }, none)
